@@ -1,19 +1,26 @@
 (** Evaluator of the C07 stress stream.  A case is one concurrent history of the
     REAL repository (operations with their observed results and logical
-    invocation / response stamps), listed in the linearization order the driver's
-    search proposes.  The order is not trusted: [check] re-validates it.
+    invocation / response stamps), listed in the order the driver's search
+    proposes, together with the results the SAME operations gave when the driver
+    executed them in that order, one after the other, on a fresh real repository.
+    Neither the order nor the search is trusted: [check] re-validates.
 
-    [v_corr]: executing the operations sequentially in the proposed order on the
-    sequential repository machine ([repo_apply]) yields exactly the observed
-    results.  [v_prop]: additionally the order respects real time (no operation is
-    placed before one that had returned before it was invoked), stamps are sane,
-    and operations of one thread do not overlap — i.e. the history is linearizable
-    w.r.t. the sequential machine, witnessed by this order. *)
+    [v_prop] — the property, from its statement alone: the history is ATOMIC, i.e.
+    every operation returned what it returns in a sequential execution of the
+    real code ([c_seq]) in an order that respects real time (no operation is
+    placed before one that had returned before it was invoked); stamps are sane,
+    operations of one thread do not overlap, and nothing panicked.  No model of
+    what add / update / delete / lookup compute is involved.
+
+    [v_corr] — correspondence with the sequential repository machine
+    ([repo_apply], literal paths only): for plans with literal paths only, the
+    machine run in the proposed order yields the observed results.  A change of
+    the repository's sequential behaviour shows here and not in [v_prop]. *)
 From HV Require Export Base.Prelude Base.Locks C07.Model.
 
 Record hoprec := { h_thr : nat; h_op : rop; h_res : rres; h_inv : Z; h_ret : Z }.
 
-Record case := { c_def : bool; c_hist : list hoprec }.
+Record case := { c_def : bool; c_lit : bool; c_hist : list hoprec; c_seq : list rres }.
 
 Fixpoint results_ok (def : bool) (s : rstate) (h : list hoprec) : bool :=
   match h with
@@ -34,13 +41,19 @@ Definition stamps_ok (h : list hoprec) : bool :=
   forallb (fun a => forallb (fun b =>
     negb (h_thr a =? h_thr b) || (h_inv a =? h_inv b)%Z || (h_ret a <? h_inv b)%Z || (h_ret b <? h_inv a)%Z) h) h.
 
+Definition no_panic (h : list hoprec) : bool :=
+  forallb (fun o => match h_res o with RPanic | RForeign => false | _ => true end) h.
+
+Definition same_as_sequential (h : list hoprec) (seq : list rres) : bool :=
+  list_eqb rres_eqb (map h_res h) seq.
+
 Definition check (c : case) : verdict :=
-  let corr := results_ok (c_def c) rstate0 (c_hist c) in
-  {| v_corr := corr;
-     v_prop := corr && realtime_ok (c_hist c) && stamps_ok (c_hist c) && negb (is_nil (c_hist c));
+  {| v_corr := negb (c_lit c) || results_ok (c_def c) rstate0 (c_hist c);
+     v_prop := same_as_sequential (c_hist c) (c_seq c) && realtime_ok (c_hist c) && stamps_ok (c_hist c) &&
+               no_panic (c_hist c) && negb (is_nil (c_hist c));
      v_guards := [] |}.
 
 (* short constructors for the generated case files *)
 Definition rr i s h ps := {| rr_id := i; rr_src := s; rr_hash := h; rr_paths := ps |}.
 Definition hop t o r i e := {| h_thr := t; h_op := o; h_res := r; h_inv := i; h_ret := e |}.
-Definition mk_case d h := {| c_def := d; c_hist := h |}.
+Definition mk_case d l h s := {| c_def := d; c_lit := l; c_hist := h; c_seq := s |}.
